@@ -37,6 +37,16 @@ CLAIMS = {
          "1 dummy operand injected by ModularVmap and 1 stripped by each of 3 consumers; (dummy, args) paired with in_axes (0, in_axes); density vmapped with the in-axes tree rebuilt from this site's batch axes; Vmap's in_axes prefix table and sum-over-lanes for all five methods; Vmap.in_axes narrowing; axis-size inference on leafless arguments; batch-axis positions in the sample batch rule."),
  "C14": ("who-may-bind and must-carry rules for the sampling primitives; guard-shape rule for the lowering rule and the sample batch rule; single-writer rule for the global flags; exhaustiveness of Seed's fall-through",
          "sample_p/adev_sample_p are bound only in create_sample_primitive and always with lowering_exception/lowering_warning; the lowering rule raises the dedicated exception before lowering unless the warning flag is set; both flags are module constants with no other writer; PPPrimitive forwards lowering with the hidden params; plain jax.vmap raises; ModularVmap's re-bind forwards the original params."),
+ "C11": ("protocol-agreement rule over all prim_jvp_estimate implementations; polynomial comparison of tangent forms; non-interference rule for reparameterisation noise; role rules for the CPS interpreter; constructor-binding agreement of keyless/keyful samplers and densities",
+         "The dual continuation is applied to Dual arguments and consumed as a Dual (9 implementors vs the interpreter); REINFORCE tangent = df + f·d log p at (X, θ) along (0, θ̇); flip enumeration = jvp of p·f(True) + (1−p)·f(False); measure-valued form with the sign polarity and the flipped outcome; lane-wise Rao-Blackwellised variant flips exactly lane i; reparameterised transforms with parameter-value-independent standard noise; continuations = rest of the program over an environment copy; custom-JVP bridge; estimator parameterisations."),
+ "C13": ("table rule: each distribution's defining expression resolved to a TFP class and positional-to-parameter binding using constructor signatures parsed statically from the installed TFP source; documentation/constructor agreement; sibling rule for sampler/density",
+         "24 distributions: TFP class, binding of the leading positionals (flip → probs with dtype bool, categorical → logits, exponential → rate, multivariate_normal → covariance_matrix, inverse_gamma → (concentration, scale), …), docstring Args are constructor parameters in order, sampler and log_prob built from one constructor call, sample_shape threaded to .sample, ADEV estimators' keyless/keyful samplers agree with the base distribution."),
+ "C15": ("role rules for the default JVP path and the cond branch of the ADEV interpreter; shape-dependence rule for manufactured zero tangents; symbolic comparison of the Dual-tree plumbing",
+         "Default path: rule from jax primitive_jvps, tangents canonicalised pairwise (float0 → Zero), primal-only shortcut only when all tangents are zero, zeros instantiated; every fresh zero tangent derived from its primal; cond_p's reversed branch order compensated exactly once with every branch transformed under the post-cond continuation; jvp_estimate/grad_estimate/estimate plumbing."),
+ "C19": ("who-writes-where rule over every store into the collected-state dictionary; try/finally pairing rule; writer/reader agreement on the leaf sentinel; sibling rule for batch rules",
+         "Named, root and leaf stores are relative to the interpreter's namespace stack; the scan merge; namespace() pushes before try and pops in finally; tagged values pass through and other primitives are re-bound unchanged; scan re-issued with same length/reverse and ys = (ys, body state); save()/tag_state naming; batch rules re-insert the same primitive and parameter and declare out-dims per output."),
+ "C20": ("non-commutative matrix-polynomial normal form (transposes pushed to atoms, inv(X)ᵀ = inv(Xᵀ), symmetric covariances, solve/cho_solve axioms with factor-kind typestate) compared with the textbook Kalman/RTS forms; axis-role typing of the HMM recursions; time-index, reversal and guard rules",
+         "Kalman filter initial and scan steps (mean, covariance in standard / Joseph / K S Kᵀ forms, Gaussian innovation term) and RTS smoother steps with roles of A, C, Q, R kept distinct (valid for d_obs ≠ d_state); forward filter sums over the from-state axis, emission indexed by y_t, alpha_0, normalisation; backward sampling conditional indexed by the from-state of the transition into the carried next state; backward passes re-ordered into time order; T > 1 guards; step models."),
 }
 checks, na = [], []
 for p in props:
